@@ -110,6 +110,11 @@ def check_case(case, stats=None, K=oracle.K_QUICK):
                 sig, extra = oracle.attribute(r, es, case["pool"], BUDGET, K)
                 if sig:
                     break
+            if sig is None and "d5-arg-shape" in case.get("features", []) and bool(vec.get("inline_functions", True)) is False:
+                # open finding F-D5 seen from this side: a global that the callee itself writes is passed by bare name;
+                # the inlined callee aliases the global's register, the called one receives a copy.  Only the
+                # comparison of an inlining with a non-inlining vector on a program of that shape gets this signature
+                sig = "C02:behaviour-differs:" + d["what"] + ":inlined-parameter-aliases-global-written-by-callee"
             raise Violation(sig or ("C02:behaviour-differs:" + d["what"]),
                             dict(detail, compare=d, root=extra, trace_default=compare.jsonable(m0.trace[:10]),
                                  trace=compare.jsonable(m.trace[:10])))
